@@ -210,7 +210,15 @@ def judge_table(case):
         # one cell in three is analysed on a report that has just analysed a same-shaped program with other operand types
         previous = 'a = 1\nb = "x"\nc = a %s b\nprint(c)\n' % op
         classes.append('same-report-history')
-    amb = judge_program(code, expr, envs, {'a': eval(a_src), 'b': eval(b_src)}, 'C19|op=%s|%s,%s' % (op, ta, tb), 3, viol, classes, previous)
+    line = 3
+    if previous is None and (case['ia'] + case['ib']) % 4 == 1:
+        # the operands are first initialised with an empty value of their kind and given their real value afterwards
+        empty = {'int': '0', 'float': '0.0', 'str': "''", 'list': '[]', 'tuple': '()'}
+        if ta in empty and tb in empty:
+            code = 'a = %s\nb = %s\n' % (empty[ta], empty[tb]) + code
+            line = 5
+            classes.append('operands-reassigned-from-empty')
+    amb = judge_program(code, expr, envs, {'a': eval(a_src), 'b': eval(b_src)}, 'C19|op=%s|%s,%s' % (op, ta, tb), line, viol, classes, previous)
     this = outcomes(expr, [{'a': eval(a_src), 'b': eval(b_src)}])[0]
     restype = type(this[1]).__name__ if this[0] == 'ok' else None
     nontrivial = ta != tb or (restype is not None and restype not in (ta, tb))
